@@ -430,7 +430,8 @@ func SRIDs(t *rapid.T) int {
 	case 2:
 		return 1
 	case 3:
-		return 4326
+		// codes that software attaches a meaning to (geographic, web mercator, projected)
+		return rapid.SampledFrom([]int{4326, 4326, 3857, 4269, 4258, 900913, 27700, 32633, 4979}).Draw(t, "wellknown")
 	case 4:
 		return 1<<31 - 1
 	case 5:
